@@ -82,23 +82,50 @@ func awaitProgress(done <-chan struct{}) string {
 		return ""
 	case <-time.After(20 * time.Second):
 	}
-	deadline := time.Now().Add(100 * time.Second)
-	for time.Now().Before(deadline) {
-		d1 := allStacks()
-		select {
-		case <-done:
-			return ""
-		case <-time.After(3 * time.Second):
+	// A goroutine that is running, runnable or in a syscall is making (or waiting to make)
+	// progress: on a loaded machine that can look the same in two dumps. Only engine goroutines
+	// that are all parked (channel, select, lock, wait) with unchanged stacks in three dumps
+	// 3 s apart count as stuck.
+	allParked := func(gs []string) bool {
+		for _, g := range gs {
+			if strings.HasPrefix(g, "[running") || strings.HasPrefix(g, "[runnable") || strings.HasPrefix(g, "[syscall") {
+				return false
+			}
 		}
-		d2 := allStacks()
-		a, b := engineStacks(d1), engineStacks(d2)
-		if len(a) > 0 && strings.Join(a, "\x00") == strings.Join(b, "\x00") {
+		return len(gs) > 0
+	}
+	deadline := time.Now().Add(core.Patience)
+	for time.Now().Before(deadline) {
+		var dumps [3]string
+		same := true
+		for k := 0; k < 3 && same; k++ {
+			if k > 0 {
+				select {
+				case <-done:
+					return ""
+				case <-time.After(3 * time.Second):
+				}
+			}
+			dumps[k] = allStacks()
+			gs := engineStacks(dumps[k])
+			if !allParked(gs) {
+				same = false
+			} else if k > 0 && strings.Join(gs, "\x00") != strings.Join(engineStacks(dumps[k-1]), "\x00") {
+				same = false
+			}
+		}
+		if same {
 			select {
 			case <-done:
 				return ""
 			default:
 			}
-			return "stuck:" + core.Trunc(d2, 12000)
+			return "stuck:" + core.Trunc(dumps[2], 12000)
+		}
+		select {
+		case <-done:
+			return ""
+		case <-time.After(2 * time.Second):
 		}
 	}
 	return "inconclusive"
@@ -337,7 +364,7 @@ func buildScriptWorld(rc *RunCtx, i int) (*scriptWorld, error) {
 	sw.engs["never-started"] = ns
 	st, _ := bs.NewBloomSearchEngine(spec.Config(), w.IMeta, w.IData)
 	st.Start()
-	sctx, cancel := context.WithTimeout(context.Background(), 30*time.Second)
+	sctx, cancel := context.WithTimeout(context.Background(), core.Patience)
 	st.Stop(sctx)
 	cancel()
 	sw.engs["stopped"] = st
